@@ -4,7 +4,7 @@ From Coq Require Import List NArith String Bool.
 From Model Require Import Base Names Flt F32 Matches Detect.
 From Proofs Require Import DetectInv DetectChaos FloatLaws F32Facts.
 From Model Require Import F32.
-From Proofs Require Import F32Laws.
+From Proofs Require Import F32Laws DetectUtf8.
 Import ListNotations.
 Open Scope N_scope.
 
@@ -69,3 +69,14 @@ Print Assumptions C04_coherence_range_binary32.
 Theorem C04_float_laws_hold_for_binary32 : FloatLaws F32ops.
 Proof. exact F32_FloatLaws. Qed.
 Print Assumptions C04_float_laws_hold_for_binary32.
+
+(* (last clause) with the fall-back enabled and no encoding filters, an input that is valid UTF-8 (the
+   strict utf-8 decode of the input minus its own mark succeeds) yields at least one match, whatever
+   the mess / coherence / declaration oracles answer -- it is never classified as binary.  Together
+   with C02_no_panic / C02_only_filter_errors (no filters: no error) the result is Ok and non-empty. *)
+Theorem C04_valid_utf8_yields_match :
+  forall FO (R : oracles FO) b cfg r,
+    include_encodings FO cfg = [] -> exclude_encodings FO cfg = [] -> enable_fallback FO cfg = true ->
+    valid_utf8 FO R b -> from_bytes FO R b cfg = Ok r -> r <> [].
+Proof. exact valid_utf8_yields_match. Qed.
+Print Assumptions C04_valid_utf8_yields_match.
